@@ -536,6 +536,6 @@ def truthy(v: V):
         return v.fields["_ids"].card != 0  # MutableSet.__len__ -> len(self._ids); checked against the real __len__
     if isinstance(v, ExtV):
         return z3.Not(v.eq_int(0))
-    if isinstance(v, (FuncV, BuiltinV, ClassV, CoroV)):
+    if isinstance(v, (FuncV, BuiltinV, ClassV, CoroV)) or type(v).__name__ == "ExcV":
         return z3.BoolVal(True)
     raise Unsupported(f"truthiness of {v!r}")
